@@ -804,6 +804,10 @@ class ShutilModel:
         self.copyfile = fs.copyfile
         self.move = fs.move
 
+    def copyfileobj(self, fsrc, fdst, length=0):
+        data = fsrc.read()
+        fdst.write(data)
+
     def get_terminal_size(self, fallback=(80, 24)):
         return types.SimpleNamespace(columns=80, lines=24)
 
